@@ -15,11 +15,13 @@ def one(name):
         env = dict(os.environ, GOFLAGS="-mod=mod", GOPROXY="off", GOSUMDB="off", GOTOOLCHAIN="local", GOMAXPROCS="4")
         out = sh(f"{V}/bin/pegcheck -repo {wt} -verif {vd} -property all", env=env).stdout
         res = {}; why = {}
+        cur = None
         for l in out.splitlines():
+            if l.startswith("pegcheck property="): cur = l.split("property=",1)[1].split()[0]
             for tag in ("  violation: [", "  undecided: [", "ANALYSIS-ERROR"):
                 if l.startswith(tag):
                     rule = l.split("[", 1)[1].split("]", 1)[0] if "[" in l else l
-                    why.setdefault(rule.split("/")[0].split("-")[0].replace("rule ", ""), []).append(l.strip()[:260])
+                    why.setdefault(cur or rule.split("/")[0].split("-")[0].replace("rule ", ""), []).append(l.strip()[:260])
             if l.startswith("RESULT "):
                 _, pid, ex = l.split(); res[pid] = int(ex.split("=")[1])
         fired = {p: why.get(p, ["(exit %d)" % c]) for p, c in res.items() if c != 0}
